@@ -86,7 +86,11 @@ class C19(Prop):
         shape, eshape = list(case["shape"]), list(case["eshape"])
         dtype = case["dtype"]
         x = fill(tuple(shape + eshape), case["a"], dtype)
-        d2n = {int(k): v for k, v in case["d2n"]}
+        import random as _random
+
+        items = [(int(k), v) for k, v in case["d2n"]]
+        _random.Random(case["perm_seed"]).shuffle(items)  # the listing order of the map must not matter
+        d2n = dict(items)
         out = Array[dtype, tuple(eshape)]
         give = case["give_output"] or dtype != "real" or not d2n
         if not give:
